@@ -174,10 +174,29 @@ def run(repo: Repo, chk: Check, thorough: bool = False) -> None:
     # from a root through `contents` (the domain of the page writer) - or be forced HIDDEN, so that nothing lists it or links to it
     from ..owners import writers
 
+    # collections whose members System.privacyClass answers HIDDEN for (`if ob in <parent>.<coll>: return PrivacyClass.HIDDEN`)
+    spc = repo.func('pydoctor.model.System.privacyClass')
+    cfs = CFG(spc)
+    hidden_colls: Set[str] = set()
+    for r_ in spc.walk():
+        if isinstance(r_, ast.Return) and r_.value is not None and norm(r_.value).endswith('PrivacyClass.HIDDEN'):
+            for t_, pol_ in cfs.dominating_tests(r_):
+                if pol_ and isinstance(t_, ast.Compare) and len(t_.ops) == 1 and isinstance(t_.ops[0], ast.In) and isinstance(t_.comparators[0], ast.Attribute):
+                    hidden_colls.add(t_.comparators[0].attr)
+
+    def _components(it: ast.AST) -> List[ast.AST]:
+        return list(it.args) if isinstance(it, ast.Call) and call_name(it) == 'chain' else [it]
+
     def reachable_or_hidden(f: Func, name: str, depth: int = 0) -> Optional[str]:
         if depth > 3:
             return None
         for n in f.walk():
+            if isinstance(n, ast.Call) and call_name(n) in ('append', 'add') and n.args and norm(n.args[0]) == name and \
+                    isinstance(n.func, ast.Attribute) and isinstance(n.func.value, ast.Attribute) and n.func.value.attr in hidden_colls:
+                return f'kept in {norm(n.func.value)[:40]}, whose members System.privacyClass answers HIDDEN for'
+            if isinstance(n, ast.For) and isinstance(n.target, ast.Name) and n.target.id == name and \
+                    all(norm(c_).endswith('.contents.values()') or (isinstance(c_, ast.Attribute) and c_.attr in hidden_colls) for c_ in _components(n.iter)):
+                return f'a member (contents, or a hidden collection) of an object that is itself registered ({norm(n.iter)[:60]})'
             if isinstance(n, ast.Assign) and isinstance(n.value, ast.Name) and n.value.id == name and \
                     any(isinstance(t, ast.Subscript) and isinstance(t.value, ast.Attribute) and t.value.attr == 'contents' for t in n.targets):
                 return f'{norm(n)[:60]} in {f.name}()'
